@@ -109,6 +109,11 @@ def main():
         hook = state['hook']
         hook.calls = 0
         sent, esc = c12.run_stream(srv.engine, [frame, probe], cert, rng, mode)
+        if isinstance(esc, rig.Runaway):
+            violation('runaway|message-loop', 'the session did not answer a fuzzed frame within 20 s of CPU time (interrupted in %s)'
+                      % innermost_kmip_frame(esc.__traceback__), detail)
+            reset()
+            return
         if esc is not None:
             violation('escaped|%s|%s' % (type(esc).__name__, innermost_kmip_frame(esc.__traceback__)),
                       'exception %s: %s left _handle_message_loop (fuzzed frame)' % (type(esc).__name__, str(esc)[:200]), detail)
